@@ -1,6 +1,7 @@
 package harness
 
 import (
+	"encoding/json"
 	"os"
 	"testing"
 )
@@ -8,6 +9,7 @@ import (
 func TestC01(t *testing.T) { runRapid(t, "C01") }
 func TestC02(t *testing.T) { runRapid(t, "C02") }
 func TestC13(t *testing.T) { runRapid(t, "C13") }
+func TestC14(t *testing.T) { runRapid(t, "C14") }
 func TestC04(t *testing.T) { runRapid(t, "C04") }
 func TestC08(t *testing.T) { runRapid(t, "C08") }
 func TestC03(t *testing.T) { runRapid(t, "C03") }
@@ -25,4 +27,29 @@ func TestReplay(t *testing.T) {
 		t.Skip("VERIF_REPLAY not set")
 	}
 	runReplay(t, p)
+}
+
+func TestC15(t *testing.T) {
+	if idx := os.Getenv("VERIF_SHARD_INDEX"); idx == "" || idx == "0" {
+		maxLen := 4
+		if thorough() {
+			maxLen = 5
+		}
+		seqs, vis, err, failing := c15Exhaustive(maxLen)
+		if err != nil {
+			rp := replayPathFor("C15")
+			_ = os.MkdirAll(ReplayDir(), 0o755)
+			b, _ := json.MarshalIndent(map[string]any{"property": "C15", "failure": err.Error(), "case": failing}, "", " ")
+			_ = os.WriteFile(rp, b, 0o644)
+			t.Fatalf("property C15 violated: %v\nVERIF-REPLAY %s", err, rp)
+		}
+		st := newCaseStats()
+		st.label("exhaustive_enumeration")
+		st.Add("exhaustive_sequences", seqs)
+		st.Add("exhaustive_max_len", maxLen)
+		st.Add("distinct_model_states", len(vis.states))
+		st.Add("distinct_state_op_pairs", len(vis.pairs))
+		Emit("C15", map[string]any{"exhaustive": "all op sequences up to the given length over an 18-op alphabet", "max_len": maxLen}, 0, st, true, registry["C15"].Rule)
+	}
+	runRapid(t, "C15")
 }
